@@ -13,6 +13,7 @@ from types import SimpleNamespace
 from .. import e2e, realcall
 from ..common import Hang, hx, unhx, watchdog
 from ..runner import Check
+from . import c11_dups
 
 # ---------------------------------------------------------------------------------------------
 # graphs
@@ -1430,6 +1431,11 @@ def known_findings(ck: Check) -> None:
         probe = Check(ck.prop, ck.tier)
         probe.findings = []
         camp = probe.campaign("witness")
+        if "doc" in w:
+            c11_dups.dups_case(probe, camp, w, w["kind"])
+            if probe.failures:
+                ck.known(f["id"], f["what"])
+            continue
         g = [dict(n) for n in w["graph"]]
         if "prefix" in w:
             run_modular_case(probe, camp, g, {int(k): v for k, v in w["prefix"].items()})
@@ -1454,12 +1460,14 @@ def run(ck: Check) -> None:
     guarded(ck, campaign_stack, 120 if quick else 600, not quick)
     guarded(ck, campaign_bubble, 4 if quick else 5)
     guarded(ck, campaign_e2e_keep_order, 60 if quick else 500)  # before the function-level campaign: a failing DOCUMENT becomes the replay
+    guarded(ck, c11_dups.campaign_dups, 240 if quick else 2400)
     guarded(ck, campaign_sort_models, 600 if quick else 6000)
     guarded(ck, campaign_e2e, 240 if quick else 2000)
     guarded(ck, campaign_reuse, 200 if quick else 2000)
     guarded(ck, campaign_e2e_post, 120 if quick else 900)
     guarded(ck, campaign_e2e_deep, 10 if quick else 60)
     guarded(ck, campaign_e2e_modular, 80 if quick else 400)
+    ck.search_hooks.append(c11_dups.search_dups)
     ck.search_hooks.append(search_e2e)
     known_findings(ck)
 
@@ -1485,6 +1493,8 @@ def replay(ck: Check, path: str) -> int:
         e2e_case(ck, camp, inp["graph"], inp["kind"], inp.get("opts", {}))
     elif target == "e2e-modular":
         run_modular_case(ck, camp, inp["graph"], {int(k): v for k, v in inp["prefix"].items()})
+    elif target == "e2e-dups":
+        c11_dups.replay_case(ck, camp, inp)
     elif target == "__sort_models":
         ms = [(nm, list(bs)) for nm, bs in inp["models"]]
         impl = run_real_sort_models(inp["imported"], ms, 60)
